@@ -105,7 +105,7 @@ theorem multi_engine_processing_invariant (σ : Leaves) (sq0 : SqlState) (h0 : s
     (fuel : Nat) (matAs : Option String) (s : ProcState) (reg : Nat → Option (List Row)) (hm : t.MultiIter)
     (hsql : t.SqlSrcOK σ sq0) (T : TreeInv σ reg sq0 t s) (hf : t.size ≤ fuel)
     (res : Res) (b : Bool) (s' : ProcState) (h : (processRec σ fuel t matAs).run.run s = (.ok (res, b), s')) :
-    ∃ reg', RegExt reg reg' s.nextTemp ∧ ProcMultiOK σ reg' sq0 t s res s' :=
+    ∃ reg', RegExt reg reg' s.nextTemp ∧ ProcMultiOK σ reg' sq0 t s matAs res b s' :=
   process_multi_iter σ h0 t fuel matAs s reg hm hsql T hf res b s' h
 
 /-- **Process a multi-engine tree, execute the result: the rows of direct evaluation.**  Transfers out of a SQL
@@ -115,11 +115,12 @@ theorem multi_engine_process_then_execute_yields_direct_rows (σ : Leaves) (reg 
     (st : ExecState) (sq : SqlState) (h0 : sq.payload 0 = none) (hm : t.MultiIter) (hsql : t.SqlSrcOK σ sq)
     (hwf : t.WF) (htr : t.Truthful σ) (hkd : keyDetermined σ t = true) (hreg : t.RegOK σ reg)
     (hb : t.markersBelow tempBase) (hs : StoreOK σ reg st) (hfree : t.sqFree sq)
-    (hfresh : ∀ o, tempBase ≤ o → sq.payload o = none) (hf : t.size ≤ defaultFuel)
+    (hfresh : ∀ o, tempBase ≤ o → sq.payload o = none) (hfreshSt : ∀ o, tempBase ≤ o → st.payload o = none)
+    (hf : t.size ≤ defaultFuel)
     (res : Res) (ps : ProcState) (h : processTop σ st sq t = (.ok res, ps)) :
     (res.get t).engine = t.engine ∧ (∀ u, u ∈ (res.get t).columns ↔ u ∈ t.columns) ∧
       ∃ it s', exec σ (res.get t).engine (res.get t) ps.st = .ok (it, s') ∧ it.rows σ = .ok (sem σ t) :=
-  process_multi_then_execute σ reg t st sq h0 hm hsql hwf htr hkd hreg hb hs hfree hfresh hf res ps h
+  process_multi_then_execute σ reg t st sq h0 hm hsql hwf htr hkd hreg hb hs hfree hfresh hfreshSt hf res ps h
 
 /-- A statically trivial Transfer gets the destination engine's trivial payload: no hook is called, and the node
 that receives the payload is a NEW Transfer (a fresh allocation id) over the untouched target. -/
@@ -182,7 +183,7 @@ theorem are met, and processing succeeds -/
 private def e2 : Engine := ⟨2, .iter⟩
 private def multiT : Rel := .unary (.sel (.fn .gt [.ref ta, .lit 0] none)) (.transfer 6 e2 matT) [ta]
 example : multiT.MultiIter ∧ multiT.IterOK ∧ multiT.WF ∧ multiT.markersBelow tempBase ∧ multiT.size ≤ defaultFuel := by
-  refine ⟨⟨⟨rfl, Or.inl ⟨rfl, rfl, rfl, ⟨rfl, rfl, rfl⟩⟩⟩, rfl, rfl⟩,
+  refine ⟨⟨⟨rfl, Or.inl ⟨rfl, rfl, Or.inl ⟨rfl, ⟨rfl, rfl, rfl⟩⟩⟩⟩, rfl, rfl⟩,
     ⟨⟨⟨rfl, rfl, rfl⟩, rfl⟩, rfl, rfl⟩, ⟨⟨trivial, rfl, by decide⟩, rfl, by decide⟩, ⟨by decide, by decide, trivial⟩,
     by decide⟩
 example : (match processTop σ1 {} {} multiT with
@@ -204,5 +205,20 @@ example : (match processTop σ1 {} sqS crossT with
        | .ok (it, _) => (it.rows σ1).toOption.map (fun rows => rows.map (fun r => r ta))
        | .error _ => none)
     | _ => none) = some [some 1] := by decide +kernel
+
+/-- a selection over a MATERIALIZATION DIRECTLY AFTER A TRANSFER out of the SQL engine: in the class; processing
+succeeds, the new Materialization and the input's one both hold the payload, executing returns the direct rows -/
+private def crossM : Rel :=
+  .unary (.sel (.fn .gt [.ref ta, .lit 0] none)) (.mat 9 "mx" (.transfer 8 e1 sqlSrc)) [ta]
+example : crossM.MultiIter ∧ crossM.WF ∧ crossM.markersBelow tempBase ∧ crossM.sqFree sqS := by
+  refine ⟨⟨⟨rfl, Or.inr ⟨⟨rfl, Or.inr ⟨rfl, rfl, rfl, rfl⟩⟩, (by decide : e1 ≠ e0)⟩⟩, rfl, rfl⟩,
+    ⟨⟨trivial, rfl, by decide⟩, rfl, by decide⟩, ⟨by decide, by decide, trivial⟩, ⟨rfl, rfl, fun h => by cases h⟩⟩
+example : (match processTop σ1 {} sqS crossM with
+    | (.ok res, ps) =>
+      (match exec σ1 e1 (res.get crossM) ps.st with
+       | .ok (it, _) => ((it.rows σ1).toOption.map (fun rows => rows.map (fun r => r ta)),
+          (ps.st.payload 9).isSome, ps.hooks.length)
+       | .error _ => (none, false, 0))
+    | _ => (none, false, 0)) = (some [some 1], true, 1) := by decide +kernel
 
 end DafRel.Props.C07
